@@ -120,7 +120,7 @@ func TestVerifC02StateMachine(t *testing.T) {
 			nlog++
 		}
 		fmt.Fprintf(&logb, "window=%v buckets=%d thr=%d:", window, nb, threshold)
-		drops, admAfterDrop, mustDrops, allows := 0, 0, 0, 0
+		drops, admAfterDrop, mustDrops, allows, episodesEnded := 0, 0, 0, 0, 0
 		adv := func(d time.Duration) {
 			m.now += d
 			timex.VerifAdvance(d)
@@ -141,6 +141,14 @@ func TestVerifC02StateMachine(t *testing.T) {
 			// the factor that scales the capacity depends on the CPU reading, known up to one smoothing step
 			fLo := factor(math.Max(float64(usage), 0.95*float64(usage)+50))
 			fHi := factor(0.95*float64(usage) - 1)
+			// "… or was at an Allow within the preceding second while shedding was already in progress": an
+			// episode of shedding is over once an Allow finds the CPU calm and the last overloaded Allow more
+			// than a second ago; a later overloaded reading starts a new episode, in which nothing has been
+			// shed yet (exactly one second is left to either reading)
+			if !cpu && m.dropped && m.lastOverloadAllow >= 0 && m.now-m.lastOverloadAllow > time.Second {
+				m.dropped = false
+				episodesEnded++
+			}
 			hot := m.dropped && m.lastOverloadAllow >= 0 && m.now-m.lastOverloadAllow <= time.Second
 			mayDrop := (cpu || hot) && float64(m.inflight) > fLo*capLo
 			mustDrop := cpu && float64(m.inflight) > fHi*capHi && m.ema > fHi*capHi*1.001
@@ -289,6 +297,7 @@ func TestVerifC02StateMachine(t *testing.T) {
 		}
 		st.ClassN("allows", allows)
 		st.ClassN("sheds", drops)
+		st.ClassN("shedding-episodes-ended-by-a-calm-allow-after-the-cool-off", episodesEnded)
 		if mustDrops > 0 {
 			st.Class("must-shed-exercised")
 		}
